@@ -2,14 +2,14 @@ SPECIFICATION GSpec
 CONSTANTS
   NK = 13
   NV = 5
-  BigKeys = {9}
+  BigKeys = {10}
   BigVals = {5}
   MaxBatch = 2
   Mode = "mut"
   Depth = 3
-  GenKeys = {4, 5, 9}
+  GenKeys = {5, 6, 10}
   GenVals = {1, 2, 5}
-  BatchKeys = {4, 5}
+  BatchKeys = {5, 6}
   BatchVals = {1, 2}
 INVARIANT Emit
 VIEW GView
